@@ -143,6 +143,12 @@ func c06GenOp(r *rand.Rand) c06Op {
 		}
 		return c06Op{K: "rcfl"}
 	}
+	switch r.Intn(6) {
+	case 0:
+		return c06Op{K: "wstr", N: c06Size(r)}
+	case 1:
+		return c06Op{K: "copywt", N: c06Size(r)}
+	}
 	o := c06Op{K: "copy", RErr: r.Intn(5) == 0}
 	for k := r.Intn(4); k > 0; k-- {
 		o.Chunks = append(o.Chunks, c06Size(r))
@@ -193,7 +199,7 @@ func c06Total(ops []c06Op) int {
 	t := 0
 	for _, o := range c.Ops {
 		switch o.K {
-		case "w", "blob":
+		case "w", "blob", "wstr", "copywt":
 			t += o.N
 		case "json", "jsonpretty":
 			if !o.Bad {
@@ -281,6 +287,50 @@ func c06Adversarial(r *rand.Rand) []c06Op {
 }
 
 // templates aimed at the round-4 code
+// round 6: entry points that PROBE echo.Response for optional fast-path interfaces — io.Copy
+// (io.ReaderFrom, and through strings.Reader.WriteTo io.StringWriter), io.WriteString,
+// http.ResponseController.Flush (FlushError) — as the FIRST thing that touches the response (the
+// implicit commit is theirs), with hooks watching, after a preset status, before and after
+// explicit status writes
+func c06AdversarialFastPath(r *rand.Rand) []c06Op {
+	c1, c2 := c06Code(r), c06Code(r)
+	h := 1 + r.Intn(3)
+	fast := func() c06Op {
+		switch r.Intn(6) {
+		case 0:
+			return c06Op{K: "copy", Chunks: []int{1 + r.Intn(5)}}
+		case 1:
+			return c06Op{K: "copy", Chunks: []int{2, 0, 3}, RErr: r.Intn(4) == 0}
+		case 2:
+			return c06Op{K: "copywt", N: r.Intn(6)}
+		case 3:
+			return c06Op{K: "wstr", N: r.Intn(6)}
+		case 4:
+			return c06Op{K: "rcfl"}
+		}
+		return c06Op{K: "fefl"}
+	}
+	tpl := [][]c06Op{
+		{fast()},
+		{fast(), {K: "wh", C: c1}},
+		{fast(), {K: "json", C: c1, N: 1}},
+		{fast(), fast(), {K: "nc", C: c1}},
+		{{K: "bf", H: h}, {K: "af", H: h + 1}, fast(), fast()},
+		{{K: "bf", H: h}, fast(), {K: "blob", C: c1, CT: 1, N: 2}, fast()},
+		{{K: "json", C: c1, Bad: true}, fast(), {K: "wh", C: c2}},
+		{{K: "af", H: h}, {K: "wstr", N: 0}, {K: "copywt", N: 0}, {K: "copy", Chunks: []int{0}}, {K: "wh", C: c1}},
+		{{K: "wh", C: c1}, fast(), {K: "af", H: h}, fast()},
+		{{K: "attach", Bad: true}, fast()},
+		{{K: "stream", C: c1, Chunks: []int{2}}, fast()},
+		{fast(), {K: "file", N: 2}, fast()},
+	}
+	ops := append([]c06Op(nil), tpl[r.Intn(len(tpl))]...)
+	for k := r.Intn(3); k > 0; k-- {
+		ops = append(ops, c06GenOp(r))
+	}
+	return ops
+}
+
 func c06AdversarialR4(r *rand.Rand, c1, c2, h int) [][]c06Op {
 	// commit with zero body bytes, then a JSON helper (Committed, not Size, decides "already sent")
 	zero := [][]c06Op{{{K: "fl"}}, {{K: "wh", C: c1}}, {{K: "nc", C: c1}}, {{K: "redir", C: 302}}, {{K: "w", N: 0}},
@@ -405,6 +455,7 @@ func c06Alphabet() []c06Op {
 		{K: "redir", C: 302}, {K: "stream", C: 206, Chunks: []int{2, 1}}, {K: "copy", Chunks: []int{1, 2}},
 		{K: "jsonpv", C: 201, H: 2, Bad: true}, {K: "file", N: 3}, {K: "xmlv", C: 203, N: 2},
 		{K: "nc", C: 0}, {K: "blob", C: 1000, CT: 1, N: 1},
+		{K: "wstr", N: 2}, {K: "copywt", N: 3},
 	}
 }
 
@@ -412,7 +463,7 @@ func c06Gen(r *rand.Rand, tier string) []any {
 	var out []any
 	add := func(prev [][]c06Op, ops []c06Op) {
 		c := &c06Case{Cap: -1, Prev: prev, Ops: ops, Fresh: r.Intn(5) == 0, RF: r.Intn(2) == 0,
-			NF: r.Intn(4) == 0, HJ: r.Intn(2) == 0, Pretty: r.Intn(4) == 0, Strict: r.Intn(2) == 0}
+			NF: r.Intn(4) == 0, HJ: r.Intn(2) == 0, X: r.Intn(2) == 0, Pretty: r.Intn(4) == 0, Strict: r.Intn(2) == 0}
 		if len(prev) > 0 {
 			c.Fresh = r.Intn(2) == 0 // Reset on one context / the pool, half and half
 		}
@@ -451,7 +502,7 @@ func c06Gen(r *rand.Rand, tier string) []any {
 	var rec func(prefix []c06Op, l int)
 	rec = func(prefix []c06Op, l int) {
 		if len(prefix) > 0 {
-			out = append(out, &c06Case{Cap: -1, Ops: append([]c06Op(nil), prefix...), RF: len(out)%2 == 0, NF: len(out)%5 == 0, HJ: len(out)%3 == 0, Strict: len(out)%2 == 1})
+			out = append(out, &c06Case{Cap: -1, Ops: append([]c06Op(nil), prefix...), RF: len(out)%2 == 0, NF: len(out)%5 == 0, HJ: len(out)%3 == 0, X: len(out)%4 < 2, Strict: len(out)%2 == 1})
 		}
 		if l == 0 {
 			return
@@ -505,6 +556,13 @@ func c06Gen(r *rand.Rand, tier string) []any {
 			prev = append(prev, c06AdversarialBadCode(r))
 		}
 		add(prev, c06AdversarialBadCode(r))
+	}
+	for i := 0; i < nAdv/2; i++ {
+		var prev [][]c06Op
+		if i%5 == 0 {
+			prev = append(prev, c06AdversarialFastPath(r))
+		}
+		add(prev, c06AdversarialFastPath(r))
 	}
 	for i := 0; i < nSeq; i++ {
 		prev, ops := c06AdversarialSeq(r)
@@ -606,6 +664,11 @@ func c06Shrink(ci any) []any {
 		d.RF = false
 		out = append(out, d)
 	}
+	if c.X {
+		d := cp()
+		d.X = false
+		out = append(out, d)
+	}
 	if c.NF {
 		d := cp()
 		d.NF = false
@@ -697,7 +760,7 @@ func c06Mutate(r *rand.Rand, ci any) []any {
 func init() {
 	register(&Prop{
 		ID:             "C06",
-		Rule:           "handler programs over {WriteHeader, Write, Flush, Before, After, JSON / JSONPretty (serialisable or not), String/HTML/JSONBlob/Blob, NoContent, Redirect (valid and invalid codes), Stream, XMLBlob, JSONPBlob, JSONP (serialisable or not), XML / XMLPretty (encodable or not), Render (no renderer / failing renderer / working renderer), File / FileFS+StaticFileHandler / Attachment / Inline (file of n bytes, empty file, missing file, directory with and without index.html, file without Seek), Hijack, flush through http.ResponseController, flush through the FlushError convention (interface assertion, else Flush), Unwrap, io.Copy into the Response from a source without WriteTo}, run as ONE request or as the last of 2-4 requests served on the same recycled context (a third of the random cases; Echo.ServeHTTP + sync.Pool, or one context with Context.Reset); exhaustive over a 20-op alphabet up to length 3 (thorough: 4, plus every program of length 5 over a 10-op core alphabet), random programs of 1-12 ops (thorough: 1-24), adversarial single-request templates (flush first, commit with zero body bytes then JSON/JSONPretty, every helper after commit, unserialisable JSON then write, unserialisable JSONP/XML then WriteHeader, Attachment of a missing file then a commit, Render without a page, hooks around multi-write helpers, redirect code bounds, Hijack before/after commit), adversarial request sequences (an earlier request ends uncommitted with a preset status and/or hooks, or committed with a non-200 status / a large Size / hooks; the following request commits implicitly or registers no hooks and writes); status codes 200-599, 1xx (100-103, 199; echo.Response commits with them like with any other code) and, in 1 of 12 random status writes plus a template family, codes OUTSIDE 100..999 (0 = zero-valued status field, 1, 99, 1000, 1001, 65536, -1, -200) on an underlying writer that either accepts every code (Status must equal what it sent) or — half of the cases whose programs register no before-hook — refuses such a code the way net/http and httptest.ResponseRecorder do (first WriteHeader panics before anything is recorded: the operation is aborted, nothing is out, Committed must stay false, the refused status stays pending; the harness recovers per step); a quarter of the cases with a writer capacity at 0 / total-1 / total / random so writes come back short; underlying writers in all 8 combinations of {http.Flusher (absent in a quarter of the cases: Flush commits, then panics, the harness recovers per step), io.ReaderFrom (half), http.Hijacker (half)}; a quarter with the request URL /?pretty; a fifth (sequences: half) through Echo.NewContext/Context.Reset (Status starts at 0) instead of ServeHTTP; thorough: 4000 single-request programs additionally behind a real httptest.Server (client status/body length vs Response.Status/Size; no 1xx codes and no Hijack there); Response fields and the recording writer are sampled after EVERY step of EVERY request; the first-status clause is judged against the status preset by THIS request's program text (tracked by the harness, not read from Response.Status); non-trivial = at least one operation after the headers went out AND (a hook registered, or flush as first operation of the last request, or a short write, or >=4 distinct tags), OR a committed last request after an earlier request that left hooks / a preset status / a non-trivial committed response on the context; distinct = distinct model op lines",
+		Rule:           "handler programs over {WriteHeader, Write, Flush, Before, After, JSON / JSONPretty (serialisable or not), String/HTML/JSONBlob/Blob, NoContent, Redirect (valid and invalid codes), Stream, XMLBlob, JSONPBlob, JSONP (serialisable or not), XML / XMLPretty (encodable or not), Render (no renderer / failing renderer / working renderer), File / FileFS+StaticFileHandler / Attachment / Inline (file of n bytes, empty file, missing file, directory with and without index.html, file without Seek), Hijack, flush through http.ResponseController, flush through the FlushError convention (interface assertion, else Flush), Unwrap, io.Copy into the Response from a source without WriteTo (probes the Response for io.ReaderFrom) and from a strings.Reader (WriteTo → io.WriteString: probes it for io.StringWriter), io.WriteString into the Response}, run as ONE request or as the last of 2-4 requests served on the same recycled context (a third of the random cases; Echo.ServeHTTP + sync.Pool, or one context with Context.Reset); exhaustive over a 22-op alphabet up to length 3 (thorough: 4, plus every program of length 5 over a 10-op core alphabet), random programs of 1-12 ops (thorough: 1-24), adversarial single-request templates (flush first, commit with zero body bytes then JSON/JSONPretty, every helper after commit, unserialisable JSON then write, unserialisable JSONP/XML then WriteHeader, Attachment of a missing file then a commit, Render without a page, hooks around multi-write helpers, redirect code bounds, Hijack before/after commit), adversarial request sequences (an earlier request ends uncommitted with a preset status and/or hooks, or committed with a non-200 status / a large Size / hooks; the following request commits implicitly or registers no hooks and writes); status codes 200-599, 1xx (100-103, 199; echo.Response commits with them like with any other code) and, in 1 of 12 random status writes plus a template family, codes OUTSIDE 100..999 (0 = zero-valued status field, 1, 99, 1000, 1001, 65536, -1, -200) on an underlying writer that either accepts every code (Status must equal what it sent) or — half of the cases whose programs register no before-hook — refuses such a code the way net/http and httptest.ResponseRecorder do (first WriteHeader panics before anything is recorded: the operation is aborted, nothing is out, Committed must stay false, the refused status stays pending; the harness recovers per step); a quarter of the cases with a writer capacity at 0 / total-1 / total / random so writes come back short; underlying writers in all 16 combinations of {io.StringWriter + FlushError (half; like net/http's connection writer), http.Flusher (absent in a quarter of the cases: Flush commits, then panics, the harness recovers per step), io.ReaderFrom (half), http.Hijacker (half)}; a quarter with the request URL /?pretty; a fifth (sequences: half) through Echo.NewContext/Context.Reset (Status starts at 0) instead of ServeHTTP; thorough: 4000 single-request programs additionally behind a real httptest.Server (client status/body length vs Response.Status/Size; no 1xx codes and no Hijack there); Response fields and the recording writer are sampled after EVERY step of EVERY request; the first-status clause is judged against the status preset by THIS request's program text (tracked by the harness, not read from Response.Status); non-trivial = at least one operation after the headers went out AND (a hook registered, or flush as first operation of the last request, or a short write, or >=4 distinct tags), OR a committed last request after an earlier request that left hooks / a preset status / a non-trivial committed response on the context; distinct = distinct model op lines",
 		New:            func() any { return &c06Case{} },
 		Gen:            c06Gen,
 		Run:            c06Run,
